@@ -162,6 +162,8 @@ def dispatch_call(it, f, a, k):
 
     has_star = any(isinstance(x, StarSym) for x in a)
 
+    if type(f).__module__ == "construct.expr":
+        return f(*a, **k)  # this.field(context): a lookup in the parsing context (any attribute of these objects is a Path)
     if isinstance(f, Closure):
         if has_star:
             raise Unsupported("*symbolic-sequence passed to an interpreted function")
@@ -192,7 +194,7 @@ def dispatch_call(it, f, a, k):
         for g in funcs[1:]:
             v = dispatch_call(it, it.wrap(g), [v], {})
         return v
-    if hasattr(f, "sym_call"):
+    if hasattr(type(f), "sym_call"):
         return f.sym_call(it, a, k)
 
     if isinstance(f, types.FunctionType) and is_repo_func(f):
@@ -788,7 +790,7 @@ def _len(it, a, k):
         return v.total
     if isinstance(v, SymMap):
         return v.n
-    if hasattr(v, "sym_len"):
+    if hasattr(type(v), "sym_len"):
         return v.sym_len(it)
     if isinstance(v, Sym):
         if v.pyt is str:
@@ -832,7 +834,7 @@ def _isinstance(it, a, k):
         return any(isinstance(x, type) and issubclass(dict, x) for x in ts)
     if isinstance(v, SymComplex):
         return any(x in (complex, object) for x in ts)
-    if hasattr(v, "sym_isinstance"):
+    if hasattr(type(v), "sym_isinstance"):
         return v.sym_isinstance(ts)
     return NotImplemented
 
@@ -1125,6 +1127,18 @@ def _ceil(it, a, k):
     v = a[0]
     if isinstance(v, Sym):
         if v.pyt == "ratio":
+            if isinstance(v.tag, tuple) and len(v.tag) == 2 and it.path.entails(v.tag[1] > 0):
+                # ceil(a / b), b > 0, as an integer K with b*(K-1) < a <= b*K  (exact for |a|, |b| < 2**53: A-ceil)
+                num, den = v.tag
+                if it.path.entails(z3.And(num >= 1, num <= den)):
+                    return 1
+                memo = it.path.__dict__.setdefault("_ceil_memo", {})
+                key = (z3.simplify(num).get_id(), z3.simplify(den).get_id())
+                if key not in memo:
+                    K = z3.Int(f"ceil!{len(memo)}")
+                    memo[key] = (K, num, den)
+                    it.path.assume(z3.And(den * (K - 1) < num, num <= den * K))
+                return mk_int(memo[key][0])
             return mk_int(-z3.ToInt(-v.term))
         if v.pyt is int:
             return v
@@ -1369,7 +1383,7 @@ def _groupby(it, a, k):
     key, seq = a
     if not isinstance(seq, (SymSeq, FlatSeq)):
         items = list(it.iterate(seq))
-        keys = [dispatch_call(it, key, [x], {}) if callable(key) or hasattr(key, "sym_call") else x[key] for x in items]
+        keys = [dispatch_call(it, key, [x], {}) if callable(key) or hasattr(type(key), "sym_call") else x[key] for x in items]
         if not any(isinstance(kk, Sym) for kk in keys):
             out = {}
             for kk, x in zip(keys, items):
@@ -1463,6 +1477,19 @@ def _accumulate(it, a, k):
             it.path.__dict__.setdefault("accumulate_models", []).append({"S": S, "n": n, "x": xj, "j": j, "initial": initial})
             return SymSeq(mk_int(n + 1), lambda i: Sym(S(as_int_term(i)), int), list, "accumulate")
         raise Unsupported("accumulate without initial over symbolic sequence")
+    if isinstance(seq, (list, tuple)) and (any(isinstance(x, Sym) for x in seq) or isinstance(initial, Sym)) and func is None:
+        out = []
+        acc = initial
+        for x in seq:
+            if acc is None:
+                acc = x
+            else:
+                out.append(acc) if not out and initial is not None else None
+                acc = it.binop("add", acc, x)
+            out.append(acc)
+        if not seq and initial is not None:
+            out.append(initial)
+        return out
     return NotImplemented
 
 
